@@ -605,8 +605,13 @@ impl PtraceDumper {
         }
 
         // Zero memory that is below the current stack pointer.
-        let offset =
-            (sp_offset + std::mem::size_of::<usize>() - 1) & !(std::mem::size_of::<usize>() - 1);
+        // The stack pointer can lie beyond the captured region (e.g. a shortened
+        // stack), in which case the whole copy is below it.
+        let offset = std::cmp::min(
+            sp_offset.saturating_add(std::mem::size_of::<usize>() - 1)
+                & !(std::mem::size_of::<usize>() - 1),
+            stack_copy.len(),
+        );
         for x in &mut stack_copy[0..offset] {
             *x = 0;
         }
